@@ -309,6 +309,8 @@ class _Blocks(ast.NodeTransformer):
                 new = self._iterator_while(out, st) or self._indexed_while(out, st)
             elif isinstance(st, (ast.Assign, ast.Return)) and isinstance(st.value, ast.Call):
                 new = self._reduce(st)
+            elif isinstance(st, ast.For):
+                new = self._range_len_for(st)
             if new is not None:
                 out.extend(new)
             else:
@@ -424,6 +426,83 @@ class _Blocks(ast.NodeTransformer):
             return None
         loop = ast.For(target=ast.Name(id=elem, ctx=ast.Store()), iter=ast.Name(id=seq, ctx=ast.Load()), body=body,
                        orelse=[], type_comment=None)
+        ast.copy_location(loop, st)
+        ast.fix_missing_locations(loop)
+        return [loop]
+
+    # for i in range(a, len(S) + a): ... S[i - a] ...      ->      for i, e in enumerate(S, a): ... e ...
+    def _range_len_for(self, st):
+        it = st.iter
+        if not (isinstance(st.target, ast.Name) and isinstance(it, ast.Call) and isinstance(it.func, ast.Name) and
+                it.func.id == "range" and not it.keywords and 1 <= len(it.args) <= 2 and not st.orelse):
+            return None
+        idx = st.target.id
+
+        def int_const(n):
+            return n.value if isinstance(n, ast.Constant) and type(n.value) is int else None
+
+        def length(n):
+            if isinstance(n, ast.Call) and isinstance(n.func, ast.Name) and n.func.id == "len" and len(n.args) == 1 and \
+                    isinstance(n.args[0], ast.Name) and not n.keywords:
+                return n.args[0].id
+            return None
+        if len(it.args) == 1:
+            start, seq = 0, length(it.args[0])
+        else:
+            start, hi = int_const(it.args[0]), it.args[1]
+            if start is None:
+                return None
+            if start == 0:
+                seq = length(hi)
+            elif isinstance(hi, ast.BinOp) and isinstance(hi.op, ast.Add) and int_const(hi.right) == start:
+                seq = length(hi.left)
+            elif isinstance(hi, ast.BinOp) and isinstance(hi.op, ast.Add) and int_const(hi.left) == start:
+                seq = length(hi.right)
+            else:
+                seq = None
+        if seq is None or seq == idx:
+            return None
+        for stmt in st.body:
+            for n in ast.walk(stmt):
+                if isinstance(n, ast.Name) and n.id in (idx, seq) and isinstance(n.ctx, (ast.Store, ast.Del)):
+                    return None
+                if isinstance(n, ast.Attribute) and isinstance(n.value, ast.Name) and n.value.id == seq and \
+                        n.attr in ("append", "extend", "insert", "pop", "remove", "clear", "sort", "reverse"):
+                    return None
+                if isinstance(n, ast.Subscript) and isinstance(n.ctx, (ast.Store, ast.Del)) and \
+                        isinstance(n.value, ast.Name) and n.value.id == seq:
+                    return None
+                if isinstance(n, (ast.FunctionDef, ast.Lambda)):
+                    return None
+        elem = f"_ds_e{next(self.n)}"
+        used = [0]
+
+        def is_pos(n):
+            if start == 0:
+                return isinstance(n, ast.Name) and n.id == idx
+            return isinstance(n, ast.BinOp) and isinstance(n.op, ast.Sub) and isinstance(n.left, ast.Name) and \
+                n.left.id == idx and int_const(n.right) == start
+
+        class Sub(ast.NodeTransformer):
+            def visit_Subscript(self, n):
+                self.generic_visit(n)
+                if isinstance(n.value, ast.Name) and n.value.id == seq and is_pos(n.slice) and isinstance(n.ctx, ast.Load):
+                    used[0] += 1
+                    return ast.copy_location(ast.Name(id=elem, ctx=ast.Load()), n)
+                return n
+        body = [Sub().visit(x) for x in st.body]
+        if not used[0]:
+            return None
+        if not any(isinstance(n, ast.Name) and n.id == idx for x in body for n in ast.walk(x)):
+            loop = ast.For(target=ast.Name(id=elem, ctx=ast.Store()), iter=ast.Name(id=seq, ctx=ast.Load()), body=body,
+                           orelse=[], type_comment=None)       # the index only selected the element
+            ast.copy_location(loop, st)
+            ast.fix_missing_locations(loop)
+            return [loop]
+        args = [ast.Name(id=seq, ctx=ast.Load())] + ([ast.Constant(value=start)] if start else [])
+        loop = ast.For(target=ast.Tuple(elts=[ast.Name(id=idx, ctx=ast.Store()), ast.Name(id=elem, ctx=ast.Store())], ctx=ast.Store()),
+                       iter=ast.Call(func=ast.Name(id="enumerate", ctx=ast.Load()), args=args, keywords=[]),
+                       body=body, orelse=[], type_comment=None)
         ast.copy_location(loop, st)
         ast.fix_missing_locations(loop)
         return [loop]
